@@ -27,6 +27,9 @@ ALSO = {
     "C14-packed-boundary-skipped-when-lengths-equal": ["C06", "C07"],
     "C20-readexactly-buffer-view": ["C12"], "C04-shared-prefix-scratch": ["C13"], "C16-tlv-bytes-u16-sum": ["C01"], "C02-cmpp30-dest-cut-unbounded": ["C01", "C11"],
     "C11-submitsmresp-body-omitted-on-error": ["C01", "C02"], "C06-pack-filler-on-full-octets": ["C08", "C05"], "C01-bindresp-header-only-drops-tlvs": ["C11", "C02"],
+    "C16-readbytes-zero-length-eof": ["C20", "C01"], "C05-smpp-decode-coding-truncated-to-octet": [], "C14-batch-ascii-fastpath-no-boundary": ["C09", "C06"],
+    "C06-gb18030-pooled-result": ["C12", "C13", "C05"], "C08-stream-encoder-pending-survives-reset": ["C05"], "C02-readtlvs-zero-length-last-dropped": ["C16", "C11"],
+    "C11-readfixed-leading-nul-is-unset": ["C01", "C15", "C20"], "C09-validator-octet-walk-skips": ["C08"], "C03-receipt-lookup-in-lowered-copy": ["C18"],
     "C12-reader-scratch-view": ["C13"], "C13-shared-sorter": ["C09"], "C07-total-from-size": ["C06"], "C03-cmpp20-dest-block-u8": ["C01"],
 }
 
